@@ -89,12 +89,10 @@ def source(sz):
     out = [HEAD]
     fmt = {'SZ': sz, 'SZ1': sz + 1, 'SZ2': sz + 2}
     for name, (sig, pres, prop, twin) in CONDS.items():
-        sig_rest = ', '.join(a.strip() for a in sig.split(',')[1:])
+        doc = '\n'.join(f'    pre: {p.format(**fmt)}' for p in pres)
         for size in range(sz + 1):
-            doc = '\n'.join(f'    pre: {p.format(**fmt)}' for p in pres)
-            out.append(f'def {name}_s{size}({sig_rest}) -> bool:\n    """\n{doc}\n    post: _\n    """\n'
-                       f'    size = {size}\n    return {prop}\n\n')
+            out.append(f'def {name}_s{size}({sig}) -> bool:\n    """\n    pre: size == {size}\n{doc}\n    post: _\n'
+                       f'    """\n    return {prop}\n\n')
         if twin:
-            doc = '\n'.join(f'    pre: {p.format(**fmt)}' for p in pres)
             out.append(f'def {name}_reach({sig}) -> bool:\n    """\n{doc}\n    post: _\n    """\n    return {twin}\n\n')
     return '\n'.join(out)
